@@ -20,7 +20,7 @@ STRENGTHENED2 = {
  "C38-2": ("MISSED", "added schedules for a key without any earlier packet (first publish overlapping a lookup) and a pause point after a store miss in ZoneStore::resolve"),
 }
 STILL_MISSED = {
- "C04-2": "reordering after a queue overflow needs byte-level back-pressure released one frame at a time while the sender keeps sending; the StalledBurst operation (flush stall, then burst) does not reproduce that interleaving, and a credit-based variant was not finished in time",
+ "C04-2": "reordering after a queue overflow needs byte-level back-pressure released one frame at a time while the sender keeps sending; the StalledBurst operation (receiver blocked by write credits, released one frame at a time while the sender keeps sending) overflows the queue but in the in-memory harness the parked packet is dropped rather than overtaken, so no reordering is observed",
 }
 first = {}
 for l in open(f'{root}/notes/seed-results.txt'):
